@@ -1009,7 +1009,11 @@ func scheduleFamily(r *prng, id int, pkg string, n, t int, thorough bool, byz bo
 	sets := idSets[n]
 	if !thorough && len(sets) > 2 {
 		k := r.intn(len(sets) - 1)
+		last := sets[len(sets)-1] // for n = 3 the set that ends at 65535: always part of the quick tier as well
 		sets = [][]uint16{sets[0], sets[1+k]}
+		if 1+k != len(idSets[n])-1 && n == 3 {
+			sets = append(sets, last)
+		}
 	}
 	for si, ids := range sets {
 		id++
